@@ -128,9 +128,16 @@ PROPS = {
     ),
     'C20': dict(
         level='exploration', crash_is_violation=True,
-        quick=dict(runs=[run('TestC20', 30, timeout=400, shrinktime='45s')]),
+        quick=dict(runs=[run('TestC20', 100, timeout=400, shrinktime='45s')]),
         thorough=dict(runs=[run('TestC20', 1200, timeout=3000, shrinktime='120s')]),
         assumptions=['e2fsprogs 1.47.0 (mke2fs -d, debugfs) is the reference; where mke2fs itself stores something else than the source (it drops trailing zero blocks / holes from the file size, stores 32-bit seconds) the expectation is what debugfs reads back',
                      'refusal at open and an error on an affected node are acceptable outcomes; images without metadata_csum or without extents are refused by the library and count as discarded cases'],
+    ),
+    'C16': dict(
+        level='exploration',
+        quick=dict(runs=[run('TestC16', 300, timeout=400, shrinktime='45s')]),
+        thorough=dict(runs=[run('TestC16', 8000, timeout=3000, shrinktime='120s')]),
+        assumptions=['names come from the non-aliasing FAT-legal domain so every destination can represent them; symlinks are only generated for ext4 -> ext4 (the statement speaks of directories and file contents)',
+                     'the 64 MiB streaming threshold of CopyFileSystem is not reached (files up to 3 MiB); noted as a limit'],
     ),
 }
